@@ -58,9 +58,21 @@ def translate():
             import difflib
             d = [l for l in difflib.unified_diff(open(cur).read().splitlines(), open(tmp).read().splitlines(), lineterm='', n=0) if l[:1] in '+-' and not l.startswith(('+++', '---'))]
             broken.append('BROKEN tables-changed (theorems about the generated tables would have to be re-proved): ' + ' | '.join(x[:120] for x in d[:4]))
+        tl = os.path.join(VERIF, 'tools', 'translate_lex.py')
+        if os.path.exists(tl):
+            tmp2 = os.path.join(CACHE, 'LexTables-alt-%s.v' % ALT_TAG)
+            rc2, out2 = sh(['python3', tl, '--repo', REPO, '--out', tmp2])
+            broken += [l for l in out2.splitlines() if l.startswith('BROKEN')]
+            cur2 = os.path.join(COQ, 'theories', 'Gen', 'LexTables.v')
+            if os.path.exists(tmp2) and os.path.exists(cur2) and open(tmp2).read() != open(cur2).read():
+                broken.append('BROKEN lexical tables changed (theorems about the generated lexical tables would have to be re-proved)')
         return broken, out
     rc, out = sh(['python3', os.path.join(VERIF, 'tools', 'translate.py'), '--repo', REPO])
     broken = [l for l in out.splitlines() if l.startswith('BROKEN')]
+    if os.path.exists(os.path.join(VERIF, 'tools', 'translate_lex.py')):
+        rc2, out2 = sh(['python3', os.path.join(VERIF, 'tools', 'translate_lex.py'), '--repo', REPO])
+        broken += [l for l in out2.splitlines() if l.startswith('BROKEN')]
+        out += out2
     return broken, out
 
 def build_model(targets=None):
